@@ -13,13 +13,20 @@
 //!   Op = {"o":"describe","kind","name":cps,"unit","desc":cps}
 //!      | {"o":"register","kind","name":cps,"labels":[[cps,cps]],"lvl","tgt":cps,"mod":bool}
 //!      | {"o":"update","h":i,"u","v":"text","n":count}       through the handle returned by the i-th register
+//! History program: {"hist": [Call], "ops": [Op]}: calls on real, re-usable builder values, in the given order:
+//!   Call = {"c":"new_filter","pats":[cps]} FilterLayer::from_patterns | {"c":"new_default"} FilterLayer::default()
+//!        | {"c":"new_prefix","p":cps} | {"c":"add","b":i,"p":cps} | {"c":"ci","b":i,"x":bool} | {"c":"dfa","b":i,"x":bool}
+//!        | {"c":"layer","b":i,"onto":k}   Layer::layer(&builder_i, inner): inner = fresh probe (k = 0; its id is the
+//!          number of products so far + 1) or the k-th product (consumed, replaced by the wrapped one)
+//!   then all products go under one Fanout and the ops are applied to it.
+//!   Trace: {"ev":"reset","cfg":{"t":"none"}}, {"ev":"build", c,b,p,pats,x,onto}.., {"ev":"assemble"}, op events.
 //! Trace: {"ev":"reset","cfg":Node} then one event per op = the op's fields + "got": what each probe received
 //! (text as arrays of code points; numbers as canonical strings).  TraceLayers.tla recomputes "got".
 use metrics::{
     Counter, CounterFn, Gauge, GaugeFn, Histogram, HistogramFn, Key, KeyName, Label, Level, Metadata, Recorder,
     SharedString, Unit,
 };
-use metrics_util::layers::{FanoutBuilder, FilterLayer, PrefixLayer, RouterBuilder, Stack};
+use metrics_util::layers::{FanoutBuilder, FilterLayer, Layer, PrefixLayer, RouterBuilder, Stack};
 use metrics_util::MetricKindMask;
 use rand::rngs::StdRng;
 use rand::Rng;
@@ -279,6 +286,7 @@ fn panic_msg() -> String {
 #[derive(Default)]
 struct Stats {
     programs: usize,
+    histories: usize,
     events: usize,
     panics: usize,
     nontrivial: HashSet<u64>,
@@ -382,13 +390,85 @@ fn parse_f64(s: &str) -> f64 {
     }
 }
 
+enum Bld {
+    F(FilterLayer),
+    P(PrefixLayer),
+}
+
+/// Executes the builder calls of a history on real builder values; returns the Fanout over all products.
+fn run_history(hist: &[Value], sh: &Arc<Shared>, w: &mut Writer, st: &mut Stats) -> BoxRec {
+    let mut blds: Vec<Bld> = vec![];
+    let mut made: Vec<Option<BoxRec>> = vec![];
+    for c in hist {
+        let what = c["c"].as_str().unwrap_or("");
+        let b = c["b"].as_u64().unwrap_or(0) as usize;
+        match what {
+            "new_filter" => {
+                let pats: Vec<String> = c["pats"].as_array().map(|a| a.iter().map(text).collect()).unwrap_or_default();
+                blds.push(Bld::F(FilterLayer::from_patterns(pats.iter())));
+            }
+            "new_default" => blds.push(Bld::F(FilterLayer::default())),
+            "new_prefix" => blds.push(Bld::P(PrefixLayer::new(text(&c["p"])))),
+            "add" | "ci" | "dfa" => match blds.get_mut(b.wrapping_sub(1)) {
+                Some(Bld::F(f)) => {
+                    match what {
+                        "add" => f.add_pattern(text(&c["p"])),
+                        "ci" => f.case_insensitive(c["x"].as_bool().unwrap_or(false)),
+                        _ => f.use_dfa(c["x"].as_bool().unwrap_or(false)),
+                    };
+                }
+                _ => panic!("harness: {what} on a builder that is not a FilterLayer"),
+            },
+            "layer" => {
+                let onto = c["onto"].as_u64().unwrap_or(0) as usize;
+                let inner: BoxRec = if onto == 0 {
+                    Box::new(Probe { id: made.len() as i64 + 1, regs: AtomicI64::new(0), sh: sh.clone() })
+                } else {
+                    made.get_mut(onto - 1).and_then(|m| m.take()).expect("harness: layer onto unknown product")
+                };
+                let out: BoxRec = match blds.get(b.wrapping_sub(1)) {
+                    Some(Bld::F(f)) => Box::new(f.layer(inner)),
+                    Some(Bld::P(p)) => Box::new(p.layer(inner)),
+                    None => panic!("harness: layer of unknown builder"),
+                };
+                if onto == 0 {
+                    made.push(Some(out));
+                } else {
+                    made[onto - 1] = Some(out);
+                }
+            }
+            _ => panic!("harness: unknown builder call {what}"),
+        }
+        let or = |k: &str, d: Value| if c[k].is_null() { d } else { c[k].clone() };
+        w.put(&json!({"ev": "build", "c": what, "b": or("b", json!(0)), "p": or("p", json!([])), "pats": or("pats", json!([])),
+                      "x": or("x", json!(false)), "onto": or("onto", json!(0))}));
+        st.events += 1;
+    }
+    let mut fb = FanoutBuilder::default();
+    for m in made {
+        fb = fb.add_recorder(m.expect("harness: product missing"));
+    }
+    w.put(&json!({"ev": "assemble"}));
+    st.events += 1;
+    Box::new(fb.build())
+}
+
 fn run_program(prog: &Value, w: &mut Writer, st: &mut Stats) {
     st.programs += 1;
     let sh = Arc::new(Shared::default());
-    let cfg = &prog["cfg"];
+    let is_hist = prog["hist"].is_array();
+    let none_cfg = json!({"t": "none"});
+    let cfg = if is_hist { &none_cfg } else { &prog["cfg"] };
     w.put(&json!({"ev": "reset", "cfg": cfg}));
     st.events += 1;
-    let top = match catch_unwind(AssertUnwindSafe(|| build(cfg, &sh))) {
+    let built = if is_hist {
+        st.histories += 1;
+        let hist = prog["hist"].as_array().unwrap().clone();
+        catch_unwind(AssertUnwindSafe(|| run_history(&hist, &sh, w, st)))
+    } else {
+        catch_unwind(AssertUnwindSafe(|| build(cfg, &sh)))
+    };
+    let top = match built {
         Ok(t) => t,
         Err(_) => {
             st.panics += 1;
@@ -396,7 +476,7 @@ fn run_program(prog: &Value, w: &mut Writer, st: &mut Stats) {
             return;
         }
     };
-    let cfg_txt = cfg.to_string();
+    let cfg_txt = if is_hist { prog["hist"].to_string() } else { cfg.to_string() };
     let mut handles: Vec<AnyHandle> = vec![];
     let empty = vec![];
     for op in prog["ops"].as_array().unwrap_or(&empty) {
@@ -624,6 +704,69 @@ fn random_program(rng: &mut StdRng) -> Value {
     json!({"cfg": cfg, "ops": ops})
 }
 
+/// Random builder history: 1-3 builders, 4-14 calls in any order (layer() at any point, repeatedly, also onto earlier
+/// products), then calls whose names are case variants / extensions of the patterns.
+fn random_history(rng: &mut StdRng) -> Value {
+    let mut g = Gen { rng, next_probe: 0, strings: vec![] };
+    let mut hist: Vec<Value> = vec![];
+    let mut kinds: Vec<bool> = vec![]; // builder i is a FilterLayer?
+    let mut nmade = 0usize;
+    let ncalls = g.rng.random_range(4..=14);
+    while hist.len() < ncalls || nmade == 0 {
+        let r = g.rng.random_range(0..12);
+        if kinds.is_empty() || (r == 0 && kinds.len() < 3) {
+            match g.rng.random_range(0..4) {
+                0 => {
+                    let p = g.cfg_str();
+                    hist.push(json!({"c": "new_prefix", "p": cps(&p)}));
+                    kinds.push(false);
+                }
+                1 => {
+                    hist.push(json!({"c": "new_default"}));
+                    kinds.push(true);
+                }
+                _ => {
+                    let n = g.rng.random_range(0..3);
+                    let pats: Vec<Value> = (0..n).map(|_| {
+                        let p = g.cfg_str();
+                        cps(&p)
+                    }).collect();
+                    hist.push(json!({"c": "new_filter", "pats": pats}));
+                    kinds.push(true);
+                }
+            }
+            continue;
+        }
+        let b = g.rng.random_range(0..kinds.len());
+        if !kinds[b] || r >= 7 || (hist.len() + 1 >= ncalls && nmade == 0) {
+            let onto = if nmade > 0 && g.rng.random_bool(0.3) { g.rng.random_range(1..=nmade) } else { 0 };
+            if onto == 0 {
+                nmade += 1;
+            }
+            hist.push(json!({"c": "layer", "b": b + 1, "onto": onto}));
+        } else if r < 3 {
+            let p = g.cfg_str();
+            hist.push(json!({"c": "add", "b": b + 1, "p": cps(&p)}));
+        } else if r < 6 {
+            hist.push(json!({"c": "ci", "b": b + 1, "x": g.rng.random_bool(0.5)}));
+        } else {
+            hist.push(json!({"c": "dfa", "b": b + 1, "x": g.rng.random_bool(0.5)}));
+        }
+    }
+    let nops = g.rng.random_range(6..=14);
+    let mut ops = vec![];
+    for i in 0..nops {
+        let kind = ["c", "g", "h"][g.rng.random_range(0..3)];
+        let name = g.name();
+        if i % 2 == 0 {
+            ops.push(json!({"o": "describe", "kind": kind, "name": cps(&name), "unit": "none", "desc": []}));
+        } else {
+            ops.push(json!({"o": "register", "kind": kind, "name": cps(&name), "labels": [], "lvl": "info", "tgt": [], "mod": false}));
+        }
+    }
+    json!({"hist": hist, "ops": ops})
+}
+
 fn main() {
     let args = vh::Args::parse();
     let mode = args.pos.first().map(|s| s.as_str()).unwrap_or("record").to_string();
@@ -641,8 +784,8 @@ fn main() {
     match mode.as_str() {
         "record" => {
             let runs: usize = args.num("runs", 200);
-            for _ in 0..runs {
-                let p = random_program(&mut rng);
+            for i in 0..runs {
+                let p = if i % 4 == 3 { random_history(&mut rng) } else { random_program(&mut rng) };
                 run_program(&p, &mut w, &mut st);
             }
         }
@@ -662,6 +805,6 @@ fn main() {
     let lines = w.lines;
     w.finish();
     println!("{}", json!({"mode": mode, "seed": seed, "programs": st.programs, "events": st.events, "lines": lines,
-        "calls": st.calls, "updates": st.updates, "panics": st.panics, "dropped": st.dropped, "renamed": st.renamed,
+        "histories": st.histories, "calls": st.calls, "updates": st.updates, "panics": st.panics, "dropped": st.dropped, "renamed": st.renamed,
         "fanned": st.multi, "distinct_nontrivial": st.nontrivial.len()}));
 }
